@@ -167,7 +167,90 @@ func eq(a, b string) string {
 	}
 	return "(= " + a + " " + b + ")"
 }
-func sel(a, i string) string    { return "(select " + a + " " + i + ")" }
+// sel builds (select a i), simplifying a select of a store at the syntactically same index.
+func sel(a, i string) string {
+	for strings.HasPrefix(a, "(store ") {
+		arrT, idxT, valT, ok := splitStore(a)
+		if !ok {
+			break
+		}
+		if idxT == i {
+			return valT
+		}
+		// distinct integer literals: skip this store
+		if isIntLit(idxT) && isIntLit(i) {
+			a = arrT
+			continue
+		}
+		break
+	}
+	return "(select " + a + " " + i + ")"
+}
+
+func isIntLit(s string) bool {
+	if s == "" {
+		return false
+	}
+	for _, c := range s {
+		if c < '0' || c > '9' {
+			return false
+		}
+	}
+	return true
+}
+
+// splitStore splits "(store A I V)" into its three arguments.
+func splitStore(s string) (a, i, v string, ok bool) {
+	body := s[7 : len(s)-1]
+	parts := splitTop(body)
+	if len(parts) != 3 {
+		return "", "", "", false
+	}
+	return parts[0], parts[1], parts[2], true
+}
+
+// splitTop splits a sequence of s-expressions at top level.
+func splitTop(s string) []string {
+	var out []string
+	d, start := 0, -1
+	inBar := false
+	for k := 0; k < len(s); k++ {
+		c := s[k]
+		if inBar {
+			if c == '|' {
+				inBar = false
+			}
+			continue
+		}
+		switch c {
+		case '|':
+			inBar = true
+			if start < 0 {
+				start = k
+			}
+		case '(':
+			if start < 0 {
+				start = k
+			}
+			d++
+		case ')':
+			d--
+		case ' ', '\n', '\t':
+			if d == 0 && start >= 0 {
+				out = append(out, s[start:k])
+				start = -1
+			}
+		default:
+			if start < 0 {
+				start = k
+			}
+		}
+	}
+	if start >= 0 {
+		out = append(out, s[start:])
+	}
+	return out
+}
 func sto(a, i, v string) string { return "(store " + a + " " + i + " " + v + ")" }
 func arr(i, e string) string    { return "(Array " + i + " " + e + ")" }
 
@@ -211,6 +294,8 @@ var solvers = []solverDef{
 	{"z3/norelevancy", z3cfg("z3", "smt.relevancy=0")},
 	{"z3/noautoconfig", z3cfg("z3", "auto_config=false")},
 	{"z3-new/seed3", z3cfg("z3-new", "smt.random_seed=3")},
+	{"z3-new/casesplit3", z3cfg("z3-new", "auto_config=false", "smt.case_split=3")},
+	{"z3/casesplit3", z3cfg("z3", "auto_config=false", "smt.case_split=3")},
 }
 
 func runOne(ctx context.Context, sd solverDef, file string, tmo time.Duration) (status, output string, secs float64) {
@@ -225,7 +310,15 @@ func runOne(ctx context.Context, sd solverDef, file string, tmo time.Duration) (
 	cmd.Run()
 	secs = time.Since(t0).Seconds()
 	output = out.String()
-	first := strings.TrimSpace(strings.SplitN(strings.TrimSpace(output), "\n", 2)[0])
+	first := ""
+	for _, ln := range strings.Split(output, "\n") {
+		ln = strings.TrimSpace(ln)
+		if ln == "" || strings.HasPrefix(ln, "WARNING") || strings.HasPrefix(ln, "(warning") {
+			continue
+		}
+		first = ln
+		break
+	}
 	switch first {
 	case "unsat", "sat", "unknown":
 		status = first
@@ -241,34 +334,24 @@ func runOne(ctx context.Context, sd solverDef, file string, tmo time.Duration) (
 	return
 }
 
-// solve races the solvers on one query. First stage: z3-new alone for a short slice; then all three.
-func solve(dir, name, query string, tmo time.Duration, stage1Only bool) SolverResult {
+// solveStage1 runs the first configuration alone, with a short timeout.
+func solveStage1(dir, name, query string, tmo time.Duration) (SolverResult, string) {
 	file := filepath.Join(dir, fmt.Sprintf("q%06d-%s.smt2", atomic.AddInt64(&queryCounter, 1), sanitize(name)))
 	os.WriteFile(file, []byte(query), 0o644)
 	res := SolverResult{All: map[string]string{}}
-	t0 := time.Now()
-	stage1 := 2 * time.Second
-	if tmo < stage1 {
-		stage1 = tmo
-	}
-	st, out, secs := runOne(context.Background(), solvers[0], file, stage1)
+	st, out, secs := runOne(context.Background(), solvers[0], file, tmo)
 	res.All[solvers[0].name] = fmt.Sprintf("%s %.2fs", st, secs)
-	if st == "unsat" || st == "sat" {
-		res.Status, res.Solver, res.Seconds, res.Output = st, solvers[0].name, secs, out
-		if st == "unsat" {
-			os.Remove(file)
-		}
-		return res
-	}
-	if st == "error" {
-		res.Output = out
-	}
-	if stage1Only {
-		res.Status, res.Seconds = st, secs
+	res.Status, res.Solver, res.Seconds, res.Output = st, solvers[0].name, secs, out
+	if st == "unsat" {
 		os.Remove(file)
-		return res
 	}
-	// stage 2: race all
+	return res, file
+}
+
+// solveStage2 races every configuration on one query (the caller runs few of these at a time, so that each
+// solver process gets a core of its own: oversubscription made proofs that take 2 s of CPU time out).
+func solveStage2(file string, res SolverResult, tmo time.Duration) SolverResult {
+	t0 := time.Now()
 	ctx, cancel := context.WithCancel(context.Background())
 	defer cancel()
 	type r struct {
@@ -305,6 +388,43 @@ func solve(dir, name, query string, tmo time.Duration, stage1Only bool) SolverRe
 	}
 	res.Status, res.Seconds = final, time.Since(t0).Seconds()
 	return res
+}
+
+// solveAll discharges a list of obligations: stage 1 for all of them in parallel, stage 2 for the rest, two at a time.
+func solveAll(dir string, obls []*Obligation, tmo time.Duration) {
+	files := make([]string, len(obls))
+	stage1 := 2 * time.Second
+	if tmo < stage1 {
+		stage1 = tmo
+	}
+	parallelDo(14, len(obls), func(i int) {
+		o := obls[i]
+		o.Result, files[i] = solveStage1(dir, o.Name, o.Query, stage1)
+	})
+	var hard []int
+	for i, o := range obls {
+		if o.Result.Status == "unsat" || o.Result.Status == "sat" {
+			continue
+		}
+		if o.Vacuity {
+			os.Remove(files[i])
+			continue // a vacuity check only fails on a proof of inconsistency
+		}
+		hard = append(hard, i)
+	}
+	parallelDo(2, len(hard), func(k int) {
+		i := hard[k]
+		obls[i].Result = solveStage2(files[i], obls[i].Result, tmo)
+	})
+}
+
+// solve: one query, both stages (used for the region re-checks).
+func solve(dir, name, query string, tmo time.Duration, stage1Only bool) SolverResult {
+	res, file := solveStage1(dir, name, query, 2*time.Second)
+	if res.Status == "unsat" || res.Status == "sat" || stage1Only {
+		return res
+	}
+	return solveStage2(file, res, tmo)
 }
 
 func sanitize(s string) string {
